@@ -95,8 +95,24 @@ impl LKHSearch {
                 *route_ctx = orig_route_ctx.deep_copy();
             });
 
-        // restore original unassigned jobs
-        new_solution.solution.unassigned = orig_solution.solution.unassigned.clone();
+        // restore original unassigned jobs, then make sure that every job is listed exactly once:
+        // restored routes can bring back jobs which the repair left in other collections
+        let assigned_jobs: HashSet<_> =
+            new_solution.solution.routes.iter().flat_map(|route_ctx| route_ctx.route().tour.jobs().cloned()).collect();
+        let repaired_unassigned = std::mem::take(&mut new_solution.solution.unassigned);
+        new_solution.solution.unassigned = orig_solution
+            .solution
+            .unassigned
+            .iter()
+            .map(|(job, info)| (job.clone(), info.clone()))
+            .chain(repaired_unassigned)
+            .filter(|(job, _)| !assigned_jobs.contains(job))
+            .collect();
+        new_solution.solution.required.retain(|job| !assigned_jobs.contains(job));
+        new_solution.solution.ignored.retain(|job| !assigned_jobs.contains(job));
+        let listed_jobs: HashSet<_> =
+            new_solution.solution.required.iter().chain(new_solution.solution.ignored.iter()).cloned().collect();
+        new_solution.solution.unassigned.retain(|job, _| !listed_jobs.contains(job));
 
         // recalculate solution state if we do
         new_solution.restore();
